@@ -689,5 +689,187 @@ TRUSTED_BASE = TRUSTED_BASE + DECL_TRUSTED + DECLRUN_TRUSTED
 RULE = RULE + "; " + DECLRUN_RULE
 
 
+# ---- the exact ranks of the loader: declaration order survives parametrization, for every number of parameter sets ----------
+import shutil as _shutil
+import tempfile as _tempfile
+import textwrap as _textwrap
+
+RANK_SAMPLE = list(range(41)) + [100, 1023, 1024, 1025, 5000]
+
+
+def _rank_source(decls):
+    """decls: [{"name", "sets": None | n, "slow": bool, "dep": None | name}] -> source of a suite class `S`"""
+    out = ["import time", "import lemoncheesecake.api as lcc", "", "@lcc.suite('S')", "class S:"]
+    for d in decls:
+        out.append("    @lcc.test(%r)" % d["name"])
+        if d.get("dep"):
+            out.append("    @lcc.depends_on(%r)" % ("S." + d["dep"]))
+        if d["sets"] is not None:
+            out.append("    @lcc.parametrized([{'i': i} for i in range(%d)])" % d["sets"])
+        out.append("    def %s(self%s):" % (d["name"], ", i" if d["sets"] is not None else ""))
+        out.append("        time.sleep(0.04)" if d.get("slow") else "        pass")
+    return "\n".join(out) + "\n"
+
+
+def _load_rank_suite(decls):
+    from lemoncheesecake.suite import load_suite_from_class
+    ns = {}
+    exec(compile(_rank_source(decls), "<C05.rank suite>", "exec"), ns)
+    return load_suite_from_class(ns["S"])
+
+
+def _run_rank_suite(decls, nb_threads):
+    """-> (names in report order, names in the order the results were added)"""
+    from lemoncheesecake import runner
+    from lemoncheesecake.events import AsyncEventManager
+    from lemoncheesecake.fixture import FixtureRegistry
+    from lemoncheesecake.session import Session
+    from lemoncheesecake.testtree import BaseSuite
+    from lemoncheesecake.suite.core import resolve_tests_dependencies
+    suite = _load_rank_suite(decls)
+    resolve_tests_dependencies([suite], [suite])        # what PreparedProject.create does between loading and running
+    d = _tempfile.mkdtemp(prefix="lccverif-c05rank-")
+    try:
+        session = Session.create(AsyncEventManager.load(), [], d, None, nb_threads=nb_threads)
+        runner.run_suites([suite], FixtureRegistry(), session, nb_threads=nb_threads)
+    finally:
+        _shutil.rmtree(d, ignore_errors=True)
+    sr = session.report.get_suites()[0]
+    return [t.name for t in sr.get_tests()], [t.name for t in BaseSuite.get_tests(sr)]
+
+
+def _declared_names(decls):
+    out = []
+    for d in decls:
+        out += [d["name"]] if d["sets"] is None else ["%s_%d" % (d["name"], k + 1) for k in range(d["sets"])]
+    return out
+
+
+_BIG = [{"name": "warm_up", "sets": None, "slow": True, "dep": None}, {"name": "case", "sets": 1030, "slow": False, "dep": "warm_up"},
+        {"name": "wrap_up", "sets": None, "slow": False, "dep": None}]
+
+
+class Rank(C.Stream):
+    """a declared suite (plain and parametrized tests, one slow test others depend on) run with N threads and with one: the report
+    lists the tests in declaration order both times, whatever order the results arrived in"""
+    name = "C05.rank"
+    prop = "C05"
+    driver = "drivers/C05Rank.lean"
+    quick_cases = 14
+    quick_seconds = 14
+    thorough_cases = 150
+    thorough_seconds = 150
+    chunk = 4
+    corpus = [
+        # more parameter sets than any fixed rank increment can hold (minimised failing input of seeded/C05-11): the test declared
+        # after the parametrized one starts BEFORE the expansions with 2 threads (they wait for the slow test), last with 1 thread
+        {"threads": 2, "decls": _BIG},
+        {"threads": 3, "decls": [{"name": "a", "sets": None, "slow": True, "dep": None}, {"name": "p", "sets": 70, "slow": False, "dep": "a"},
+                                 {"name": "q", "sets": 3, "slow": False, "dep": None}, {"name": "z", "sets": None, "slow": False, "dep": None}]},
+    ]
+
+    def gen(self, rng, i):
+        n = rng.choice([2, 3, 3, 4, 5])
+        decls = []
+        for k in range(n):
+            sets = None if rng.random() < 0.45 else rng.choice([0, 1, 2, 3, 5, 9, 17, 40, 130])
+            decls.append({"name": "t%d" % k, "sets": sets, "slow": False, "dep": None})
+        slow = rng.choice([0, 0, 0, 1, rng.randrange(n)])
+        decls[slow]["slow"] = True
+        if rng.random() < 0.8:
+            decls[slow]["sets"] = None            # a plain slow test the others can depend on
+        elif decls[slow]["sets"] is not None:
+            decls[slow]["sets"] = min(decls[slow]["sets"], 2)
+        for k, d in enumerate(decls):
+            if k != slow and (decls[slow]["sets"] is None) and rng.random() < 0.6:
+                d["dep"] = decls[slow]["name"]
+        return {"threads": rng.choice([2, 2, 3, 4, 8]), "decls": decls}
+
+    def impl(self, case):
+        suite = _load_rank_suite(case["decls"])
+        loaded = [t.name for t in suite.get_tests()]
+        ranks_distinct = len({t.rank for t in suite.get_tests()}) == len(loaded)
+        repN, arrN = _run_rank_suite(case["decls"], case["threads"])
+        rep1, arr1 = _run_rank_suite(case["decls"], 1)
+        return {"loaded": loaded, "ranks_distinct": ranks_distinct, "reportN": repN, "arrivalN": arrN, "report1": rep1, "arrival1": arr1}
+
+    def oracle(self, case, obs):
+        want = _declared_names(case["decls"])
+        fails = []
+
+        def first_diff(a, b):
+            k = next((i for i, (x, y) in enumerate(zip(a, b)) if x != y), min(len(a), len(b)))
+            return "position %d: %s vs %s" % (k, a[k:k + 3], b[k:k + 3])
+
+        if obs["reportN"] != obs["report1"]:
+            fails.append(C.Failure("C05/rank/report-order-differs-from-1-thread-run",
+                                   f"the report of the {case['threads']}-thread run lists the tests in another order than the 1-thread run: "
+                                   + first_diff(obs["reportN"], obs["report1"])))
+        for label, rep in (("%d threads" % case["threads"], obs["reportN"]), ("1 thread", obs["report1"])):
+            if rep != want:
+                fails.append(C.Failure("C05/declared-order-lost",
+                                       f"report ({label}) does not list the tests in declaration order: " + first_diff(rep, want)))
+                break
+        if not obs["ranks_distinct"]:
+            fails.append(C.Failure("C05/rank/sibling-ranks-not-distinct", "two loaded tests of one suite share a rank"))
+        return fails
+
+    def request(self, case, obs):
+        return {"decls": [[d["name"], d["sets"]] for d in case["decls"]], "arrival": obs["arrivalN"]}
+
+    def compare(self, case, obs, ans):
+        if "report" not in ans:
+            return "model error: " + str(ans.get("error"))
+        if ans["loaded"] != obs["loaded"]:
+            return "loaded tests: model vs implementation differ"
+        if ans["report"] != obs["reportN"]:
+            k = next((i for i, (x, y) in enumerate(zip(ans["report"], obs["reportN"])) if x != y), -1)
+            return f"report order: model {ans['report'][k:k + 3]} vs implementation {obs['reportN'][k:k + 3]} at position {k}"
+        return None
+
+    def nontrivial(self, case, obs):
+        return obs["arrivalN"] != obs["arrival1"]
+
+    def features(self, case, obs):
+        f = ["threads=%d" % case["threads"]]
+        n = max([d["sets"] or 0 for d in case["decls"]])
+        f.append("max-sets:" + (">=1025" if n >= 1025 else ">=64" if n >= 64 else ">=8" if n >= 8 else "<8"))
+        if obs["arrivalN"] != obs["arrival1"]:
+            f.append("arrival-order-differs-from-1-thread-run")
+        if obs["arrivalN"] != obs["reportN"]:
+            f.append("arrival-order-is-not-declaration-order")
+        ds = case["decls"]
+        if any(ds[k]["sets"] and k + 1 < len(ds) for k in range(len(ds))):
+            f.append("test-declared-after-a-parametrized-one")
+        return f
+
+    def shrink(self, case):
+        ds = case["decls"]
+        for k in range(len(ds)):
+            if len(ds) > 1 and not any(d.get("dep") == ds[k]["name"] for d in ds):
+                yield dict(case, decls=ds[:k] + ds[k + 1:])
+        for k, d in enumerate(ds):
+            if d["sets"] and d["sets"] > 1:
+                for m in sorted({d["sets"] // 2, d["sets"] - 1}):
+                    yield dict(case, decls=ds[:k] + [dict(d, sets=m)] + ds[k + 1:])
+
+
+def tables(ctx):
+    """the ranks the real loader gives the expansions of a parametrized test with 5001 parameter sets declared between two tests,
+    as exact fractions"""
+    suite = _load_rank_suite([{"name": "before", "sets": None}, {"name": "case", "sets": 5001}, {"name": "after", "sets": None}])
+    tests = {t.name: t for t in suite.get_tests()}
+    frac = lambda x: "(%d, %d)" % float(x).as_integer_ratio()
+    decl = tests["case_1"].rank            # the first expansion keeps the rank of the declaration
+    rows = [(str(k), frac(tests["case_%d" % (k + 1)].rank), "rank(case_%d) = %r" % (k + 1, tests["case_%d" % (k + 1)].rank)) for k in RANK_SAMPLE]
+    bounds = [(frac(decl), frac(tests["after"].rank), "declared at %r, next test at %r" % (decl, tests["after"].rank))]
+    return [C.Table("variantRanks", "List (Nat × (Nat × Nat))", rows), C.Table("variantBounds", "List ((Nat × Nat) × (Nat × Nat))", bounds)]
+
+
+LEAN_MODULES = LEAN_MODULES + ["LccModel.Props.C05Rank", "LccModel.Model.RankFrac"]
+PROPS_FILES = PROPS_FILES + ["LccModel/Props/C05Rank.lean"]
+NAMESPACES = dict(NAMESPACES, **{"LccModel/Props/C05Rank.lean": "LccModel.C05Rank"})
+
+
 def streams(ctx):
-    return [Run(), Sched(), Desc(), DeclRun()]
+    return [Run(), Sched(), Desc(), DeclRun(), Rank()]
